@@ -346,8 +346,8 @@ func checkC10(c *Ctx) {
 		// the switch must be over the REQUEST content type, flags filtered
 		ok := false
 		ast.Inspect(fd.Body, func(n ast.Node) bool {
-			if sw, ok2 := n.(*ast.SwitchStmt); ok2 && sw.Tag != nil {
-				tag := types.ExprString(sw.Tag)
+			if n == ast.Node(fd.Body) {
+				tag := t.Tag
 				if tag == "filterFlags(contentType)" || tag == "contentType" {
 					// contentType := [filterFlags(]r.Header.Get("Content-Type")
 					ast.Inspect(fd.Body, func(m ast.Node) bool {
